@@ -212,9 +212,10 @@ class ControllerApplication:
                     # TODO: we should check the address range here
                     self._device_address_announced += 1
                     logger.info("Try the next address '%d'", self._device_address_announced)
-                    self._send_address_claimed(self._device_address_announced)
+                    # leave the operational state before anything is sent: we hold no address any more
                     # TODO: it's not possible to set the VETO-Timeout from here
                     self._device_address_state = ControllerApplication.State.WAIT_VETO
+                    self._send_address_claimed(self._device_address_announced)
 
             else:
                 # we have higher prio - repeat our claim message
